@@ -313,7 +313,9 @@ func NewSolver(tt *Table, name string, timeoutMs int) (*Solver, error) {
 		if fast > timeoutMs {
 			fast = timeoutMs
 		}
-		s.procs = []*proc{{kind: "cvc5-int", timeoutMs: fast}, {kind: "cvc5", timeoutMs: timeoutMs / 2}, {kind: "z3-new", timeoutMs: timeoutMs}}
+		// the last stage is a retry with a long limit: on a loaded machine a query
+		// that normally takes milliseconds can miss every short limit
+		s.procs = []*proc{{kind: "cvc5-int", timeoutMs: fast}, {kind: "cvc5", timeoutMs: timeoutMs / 2}, {kind: "z3-new", timeoutMs: timeoutMs}, {kind: "cvc5", timeoutMs: 4 * timeoutMs}}
 		s.portfolio = true
 	default:
 		s.procs = []*proc{{kind: name, timeoutMs: timeoutMs}}
@@ -365,7 +367,7 @@ func (s *Solver) Check(lits []*Term, wantModel bool) (Result, Model) {
 		// comparison-only queries go to the integer encoding first; queries
 		// with masks, shifts or table look-ups (UTF-8 decoding) are faster
 		// with bit-blasting
-		order = []*proc{s.procs[1], s.procs[2], s.procs[0]}
+		order = []*proc{s.procs[1], s.procs[2], s.procs[0], s.procs[3]}
 	}
 	for _, p := range order {
 		t0 := time.Now()
